@@ -35,7 +35,11 @@ MANIFEST = dict(
          "for the prompt machine, never-discard and all-fired with discard off, and termination.  The same record "
          "predicates judge every token of real runs (real engine, real Waiter, config decoded by cli.readConfig incl. "
          "the discard_overflow default) from two stamps that bracket the Waiter's clock reading, so a scheduling delay "
-         "can only relax a rule, never break it.",
+         "can only relax a rule, never break it.  Grown beyond the statement: scenario pacing min_waiting_time (a shot blocks the "
+         "instance for max(response, min_waiting_time); invariants Paced/ShotLength; bound to the REAL http/scenario gun and "
+         "provider against an in-process target, incl. aborted scenarios); several instances on one schedule (every token held "
+         "by exactly one instance and decided exactly once, fire xor discard; 3 instances with one slow worker in M1); and, as an "
+         "extra in the thorough tier, an inductive invariant of the Waiter over unbounded integer time discharged by Apalache.",
     note="bounds: 3-4 tokens, gaps {0,1,3,5,30} ticks, responses {0,5,25,35} ticks, <= 2 instances (3 in thorough), lazy-tick budget 2 (22 in "
          "thorough); real time: scripts <= 8 s, 100 ms tick; trusted: the recording mocks (Schedule wrapper, gun, "
          "aggregator) and goroutine-id tagging; `>=` vs `>` at exactly 2.000000 s is not observable in real time "
@@ -43,7 +47,9 @@ MANIFEST = dict(
 )
 
 NEGS = [("Timing_neg_stale.cfg", "stale"), ("Timing_neg_thresh.cfg", "thresh"),
-        ("Timing_neg_early.cfg", "early"), ("Timing_neg_desched.cfg", "desched"), ("Timing_neg_noreset.cfg", "noreset")]
+        ("Timing_neg_early.cfg", "early"), ("Timing_neg_desched.cfg", "desched"), ("Timing_neg_noreset.cfg", "noreset"),
+        ("Timing_neg_nopace.cfg", "nopace"), ("Timing_neg_paceend.cfg", "paceend"),
+        ("Timing_neg_doubledraw.cfg", "doubledraw"), ("Timing_wit_backlog.cfg", "witness_backlog_next_to_on_time")]
 
 
 def prints_json(r):
@@ -58,13 +64,13 @@ def design_level(thorough, res):
     """Runs in a thread next to the real-time part; stores into res (errors are re-raised by the caller)."""
     try:
         states = trans = 0
-        cfgs = ["Timing_exh.cfg", "Timing_lazy.cfg"] + (["Timing_exh4.cfg", "Timing_lazy2.cfg", "Timing_lazy22.cfg", "Timing_exh3i.cfg"] if thorough else [])
+        cfgs = ["Timing_exh.cfg", "Timing_lazy.cfg", "Timing_pace.cfg"] + (["Timing_exh4.cfg", "Timing_lazy2.cfg", "Timing_lazy22.cfg", "Timing_exh3i.cfg", "Timing_pace25.cfg"] if thorough else [])
         per, runs = {}, {}
 
         def one(cfg):
             runs[cfg] = vlib.tlc("TimingMC", cfg, deadlock=False, timeout=3000, workers=6, heap="8g" if thorough else "4g")
         # the two large configurations of the thorough tier run next to the small ones
-        BIG = ("Timing_lazy2.cfg", "Timing_lazy22.cfg", "Timing_exh3i.cfg")
+        BIG = ("Timing_lazy2.cfg", "Timing_lazy22.cfg", "Timing_exh3i.cfg", "Timing_pace.cfg", "Timing_pace25.cfg")
         big = [threading.Thread(target=one, args=(c,)) for c in cfgs if c in BIG]
         [t.start() for t in big]
         for cfg in cfgs:
@@ -92,8 +98,54 @@ def design_level(thorough, res):
         res["error"] = ex
 
 
+APALACHE_RUNS = [   # (name, args, expected outcome)
+    ("init_establishes_IndInv", ["--cinit=CInit", "--init=Init", "--inv=IndInv", "--length=0"], "NoError"),
+    ("IndInv_is_inductive", ["--cinit=CInit", "--init=IndInit", "--inv=IndInv", "--length=1"], "NoError"),
+    ("stale_variant_not_inductive", ["--cinit=CInitStale", "--init=IndInit", "--inv=IndInv", "--length=1"], "Error"),
+    ("stale_variant_violates_Sandwich_from_Init", ["--cinit=CInitStale", "--init=Init", "--inv=Sandwich", "--length=10"], "Error"),
+]
+
+
+def unbounded_evidence(res):
+    """Optional extra (thorough tier): Apalache proves the inductive invariant of WaiterInd.tla (NoEarly, Sandwich,
+    NeverDiscardOff for ALL integer clock values, token instants, MAX > 0, any descheduling).  A tool failure is a
+    note in the evidence, never a verdict and never a machinery failure."""
+    import shutil
+    import subprocess
+    out = {"tool": "apalache-mc", "module": "WaiterInd.tla", "runs": {}, "status": "not run"}
+    try:
+        exe = shutil.which("apalache-mc")
+        if not exe:
+            out["status"] = "apalache-mc not installed"
+            return
+        d = vlib.scratch("c04-apalache-")
+        shutil.copy(os.path.join(vlib.SPEC, "WaiterInd.tla"), d)
+        ok = True
+        for name, args, expect in APALACHE_RUNS:
+            t0 = time.time()
+            try:
+                p = subprocess.run(["timeout", "300", exe, "check"] + args + ["--out-dir=" + os.path.join(d, "out"), "WaiterInd.tla"],
+                                   cwd=d, stdout=subprocess.PIPE, stderr=subprocess.STDOUT, text=True, timeout=330)
+                m = [ln for ln in p.stdout.splitlines() if "The outcome is:" in ln]
+                outcome = m[-1].split("The outcome is:")[1].split()[0] if m else "tool failure rc=%s" % p.returncode
+            except Exception as ex:  # noqa
+                outcome = "tool failure: %s" % ex
+            out["runs"][name] = {"outcome": outcome, "expected": expect, "wall_s": round(time.time() - t0, 1)}
+            ok = ok and outcome == expect
+        out["status"] = ("inductive invariant discharged for unbounded integer time (and both negative controls fail as they must)"
+                         if ok else "NOT discharged (see runs) - no claim of unbounded evidence in this run")
+    except Exception as ex:  # noqa
+        out["status"] = "tool failure: %s" % ex
+    finally:
+        res["unbounded"] = out
+
+
+PACE_MW = 25   # MinWait of Timing_simpace.cfg (ticks): min_waiting_time = 2500 ms
+
+
 def scripts_from_tlc(n_walks, n_pick, first_id=1, cfg="Timing_sim.cfg"):
     lazy = cfg == "Timing_simlazy.cfg"
+    mw = PACE_MW if cfg == "Timing_simpace.cfg" else 0
     r = vlib.tlc("TimingMC", cfg, workers=1, simulate="num=%d" % n_walks, depth=3000, seed_=vlib.seed(),
                  deadlock=False, timeout=900, heap="2g")
     if r.error or r.violation:
@@ -137,11 +189,16 @@ def scripts_from_tlc(n_walks, n_pick, first_id=1, cfg="Timing_sim.cfg"):
         cases.append({"id": cid, "kind": "script", "key": key, "ninst": w["ninst"],
                       "toks": [e["tok"] for e in h], "resp": [e["r"] for e in h], "exp": [e["d"] for e in h],
                       "pa": [e["a"] - e["tok"] for e in h], "pb": [e["b"] - e["tok"] for e in h], "fin": w["fin"],
-                      "lz": [e["lz"] for e in h], "starts": sorted(w["startAt"][:w["ninst"]]),
+                      "lz": [e["lz"] for e in h], "starts": sorted(w["startAt"][:w["ninst"]]), "mw": mw,
+                      "grpc": bool(mw and cid % 2 == 1),    # pacing cases alternate between the http and the grpc scenario gun
+                      # pacing cases: every third shot is answered with 500, so the scenario's assert/response fails and
+                      # the scenario is aborted (an input dimension; the model's shot lasts max(response, MinWait) either way)
+                      "fail": [1 if mw and e["d"] == "fire" and (cid + e["k"]) % 3 == 0 else 0 for e in h],
                       "desc": "script tokens=%s resp=%s%s instances=%d discard_overflow=%s" % (
                           [e["tok"] for e in h], [e["r"] for e in h],
                           (" desched_after_next=%s" % [e["lz"] for e in h]) if lazy else "", w["ninst"], key) +
-                              (" instance_starts=%s" % w["startAt"][:w["ninst"]] if max(w["startAt"]) > 0 else "")})
+                              (" instance_starts=%s" % w["startAt"][:w["ninst"]] if max(w["startAt"]) > 0 else "") +
+                              (" REAL %s/scenario gun, min_waiting_time=%d ms" % ("grpc" if cid % 2 == 1 else "http", mw * 100) if mw else "")})
     return cases, len(walks)
 
 
@@ -149,8 +206,9 @@ CANARY = 1000000
 # Synthetic runs appended to every batch: TraceTiming MUST flag exactly these rules on them, otherwise the trace
 # specification has lost its teeth (machinery failure).  They never count as verdicts about the code.
 def canary_rows():
-    t = lambda run, k, tok, a, b, d, net=0, tag="": {"ev": "tok", "run": run, "k": k, "tok": tok, "a": a, "b": b, "d": d,
-                                                     "net": net, "tag": tag, "dur": 0, "exp": "", "pa": 0, "pb": 0}
+    t = lambda run, k, tok, a, b, d, net=0, tag="", mw=0, pf=-1, dur=0, srv=0: {
+        "ev": "tok", "run": run, "k": k, "tok": tok, "a": a, "b": b, "d": d, "net": net, "tag": tag, "dur": dur,
+        "exp": "", "pa": 0, "pb": 0, "mw": mw, "pf": pf, "srv": srv, "gs": 0}
     c1, c2 = CANARY, CANARY + 1
     rows = [
         {"ev": "run", "run": c1, "kind": "canary", "key": "absent", "got": True, "ninst": 1, "desc": "canary on"},
@@ -164,12 +222,16 @@ def canary_rows():
         {"ev": "run", "run": c2, "kind": "canary", "key": "absent", "got": False, "ninst": 1, "desc": "canary off"},
         t(c2, 1, 100000, 3100000, 3100010, "discard", 777, "discarded"), # discarded-while-off
         t(c2, 2, 100000, 3100000, 3100010, "fire"),                      # fine: late but discard is off
-        {"ev": "end", "run": c2, "end": 4000000, "left": 0, "drawn": 2, "err": "", "timeout": False, "last": 100000, "orphans": 0},
+        t(c2, 3, 100000, 3100000, 3600000, "fire", mw=1000000, pf=3100010, dur=1000000),           # next-shot-before-min-wait
+        t(c2, 4, 100000, 3100000, 4700000, "fire", mw=1000000, pf=3600000, dur=999999),            # shot-shorter-than-min-wait
+        t(c2, 5, 100000, 3100000, 5800000, "fire", mw=1000000, pf=4700000, dur=4500001, srv=2500000),  # paced-longer-than-needed
+        {"ev": "end", "run": c2, "end": 4000000, "left": 0, "drawn": 5, "err": "", "timeout": False, "last": 100000, "orphans": 0},
         {"ev": "conf", "run": c2, "pool": 0, "key": "false", "got": True},
     ]
     expect = {(c1, "fired-two-seconds-late"), (c1, "discarded-inside-window"), (c1, "discard-not-marked"),
               (c1, "fired-early"), (c1, "shot-and-discarded"), (c1, "token-lost"), (c1, "run-not-bounded"),
-              (c2, "default-not-applied"), (c2, "discarded-while-off"), (c2, "not-all-fired-while-off")}
+              (c2, "default-not-applied"), (c2, "discarded-while-off"), (c2, "not-all-fired-while-off"),
+              (c2, "next-shot-before-min-wait"), (c2, "shot-shorter-than-min-wait"), (c2, "paced-longer-than-needed")}
     return rows, expect
 
 
@@ -221,7 +283,7 @@ def validate(v, trace_path, cases_by_id):
     if set(cgot) != cexpect or cgot[(CANARY, "discard-not-marked")] != 2 or cgot[(CANARY + 1, "default-not-applied")] != 2:
         raise vlib.MachineryError("TraceTiming canary: flagged %s, expected %s" % (sorted(cgot.items()), sorted(cexpect)))
     rep["runs"] -= 2
-    rep["toks"] -= 8
+    rep["toks"] -= 11
     rep["canary"] = sum(cgot.values())
     rows = rows[:-len(crow)]
     if machinery and not v.violations:
@@ -235,15 +297,20 @@ def run(tier, v):
     design = {}
     th = threading.Thread(target=design_level, args=(thorough, design))
     th.start()
+    unb = {}
+    uth = threading.Thread(target=unbounded_evidence, args=(unb,)) if thorough else None
+    if uth:
+        uth.start()
     try:
         d = vlib.scratch("c04-timing-")
         n_scripts, n_gap, n_lazy, n_random, n_walks, n_confs = (140, 60, 100, 160, 3000, 60) if thorough else (20, 8, 10, 28, 800, 12)
+        n_pace = 40 if thorough else 6
         # script families (generated in parallel; ids are disjoint ranges):
         #   sim     prompt machine, 8 tokens            sim12  (thorough) 12 tokens, up to 11 s
         #   simgap  bursts separated by a pause longer than the window: a waiter that was behind has to sleep again
         #   simlazy descheduling of 3/6 ticks between Next() and the Waiter's clock reading (injected by the harness)
         fams = [("Timing_sim.cfg", n_scripts, 1)] + ([("Timing_sim12.cfg", 60, 2001)] if thorough else []) + \
-               [("Timing_simgap.cfg", n_gap, 4001), ("Timing_simlazy.cfg", n_lazy, 6001)]
+               [("Timing_simgap.cfg", n_gap, 4001), ("Timing_simlazy.cfg", n_lazy, 6001), ("Timing_simpace.cfg", n_pace, 8001)]
         got = {}
 
         def gen(cfg, n, first):
@@ -275,6 +342,8 @@ def run(tier, v):
         rep, rows, tstates = validate(v, out, cases)
     finally:
         th.join()
+        if uth:
+            uth.join()
     if "error" in design:
         raise design["error"]
     script_toks = sum(len(c["toks"]) for c in scripts)
@@ -308,9 +377,16 @@ def run(tier, v):
                                  sum(1 for r_ in rows if r_["ev"] == "conf" and r_["key"] == k_ and r_["run"] < CANARY)
                                  for k_ in ("absent", "true", "false")},
         "trace_spec_canary_violations_flagged": rep["canary"],
+        "pacing_scripts_real_scenario_gun": {"http": sum(1 for c in scripts if c.get("mw") and not c.get("grpc")),
+                                             "grpc": sum(1 for c in scripts if c.get("mw") and c.get("grpc"))},
+        "pacing_shots_observed": sum(1 for r_ in toks if r_.get("mw", 0) > 0 and r_["d"] == "fire"),
+        "pacing_shots_aborted_by_failed_step": sum(sum(c["fail"]) for c in scripts if c.get("mw")),
+        "slow_worker_runs_3_instances": sum(1 for c in cases.values() if c.get("slowms")),
         "trace_states": tstates, "driver_wall_s": round(drv_wall, 1),
         "exhaustive": False,
     }
+    if thorough:
+        cov["unbounded_evidence"] = unb.get("unbounded", {"status": "not run"})
     return "model_checking", cov, [
         "exhaustive TLC bounds: 3 tokens (4 in thorough), gaps {0,1,3,5,30} ticks, responses {0,5,25,35} ticks, 1-2 instances, "
         "lazy-tick budget 2 with one instance (2 with two instances and 22 with one instance in thorough); 3 instances x 4 tokens "
